@@ -282,7 +282,7 @@ func drawCase(rt *rapid.T, allowReversal bool) *Case {
 		name := rapid.SampledFrom(names).Draw(rt, "name")
 		kinds := []string{"external", "transition", "transition-then-external-other"}
 		if allowReversal {
-			kinds = append(kinds, "transition-then-reversal", "transition-then-reversal")
+			kinds = append(kinds, "transition-then-reversal", "transition-then-reversal", "two-transitions-then-reversal", "two-transitions-then-reversal")
 		}
 		switch rapid.SampledFrom(kinds).Draw(rt, "block") {
 		case "external":
@@ -297,6 +297,20 @@ func drawCase(rt *rapid.T, allowReversal bool) *Case {
 				other = "y"
 			}
 			c.Steps = append(c.Steps, &Step{Op: rapid.SampledFrom([]string{"external-create", "external-remove"}).Draw(rt, "ext"), Name: other})
+		case "two-transitions-then-reversal":
+			// Two changing transitions within one polling interval (the
+			// controller scans before each), the second one reversed
+			// externally before the poller scans again.
+			other := "x"
+			if name == "x" {
+				other = "y"
+			}
+			c.Steps = append(c.Steps, &Step{Op: rapid.SampledFrom([]string{"transition-create", "transition-remove"}).Draw(rt, "tr"), Name: other})
+			c.Steps = append(c.Steps, &Step{Op: rapid.SampledFrom([]string{"transition-create", "transition-remove"}).Draw(rt, "tr2"), Name: name})
+			if gap := rapid.SampledFrom([]int{0, 0, 50}).Draw(rt, "gap"); gap > 0 {
+				c.Steps = append(c.Steps, &Step{Op: "sleep", Ms: gap})
+			}
+			c.Steps = append(c.Steps, &Step{Op: "reverse"})
 		case "transition-then-reversal":
 			c.Steps = append(c.Steps, &Step{Op: rapid.SampledFrom([]string{"transition-create", "transition-remove"}).Draw(rt, "tr"), Name: name})
 			if gap := rapid.SampledFrom([]int{0, 0, 50, 300}).Draw(rt, "gap"); gap > 0 {
